@@ -11,6 +11,7 @@ Contract file format (line oriented; everything up to the next `@@` line is the 
   @@@ spec                             requires/ensures/decreases between signature and body
   @@@ head                             ghost text right after the body's opening brace
   @@@ loop <k>                         invariant/decreases for the k-th loop of the fn (1-based)
+  @@@ loopbody <k> / afterloop <k>     ghost text at the start of / right after the k-th loop
   @@@ before <anchor>                  ghost text before the statement starting with <anchor>
   @@@ after <anchor>                   ghost text after the statement/line containing <anchor>
   @@@ itemhead                         text right after the item's opening brace (spec members)
@@ -64,7 +65,7 @@ def parse_vc(path):
             kind = parts[0]
             arg = parts[1].strip() if len(parts) > 1 else ''
             sec = Section(kind, arg, lineno, path)
-            if kind in ('item', 'split', 'module', 'root', 'in'):
+            if kind in ('item', 'split', 'module', 'root', 'in', 'line'):
                 tops.append(sec)
                 if kind in ('item', 'split', 'in'):
                     cur_top = sec
@@ -151,6 +152,17 @@ def apply_fn_sections(s, fnsec, item_lo, item_hi, log, copies):
             while s[j - 1] in ' \t\n':
                 j -= 1
             s = s[:j] + '\n' + txt + s[lb:]
+        elif sub.kind in ('loopbody', 'afterloop'):
+            ls_ = loops(s, m, bo, bc)
+            k = int(sub.arg)
+            if k < 1 or k > len(ls_):
+                raise Lost('%s: loop %d of %d' % (where, k, len(ls_)))
+            kw, lb = ls_[k - 1]
+            if sub.kind == 'loopbody':
+                s = s[:lb + 1] + '\n' + txt + s[lb + 1:]
+            else:
+                le = match_close(s, m, lb)
+                s = s[:le + 1] + '\n' + txt + s[le + 1:]
         elif sub.kind == 'copybody':
             # X11: the body of a trait default method is verified as a free function with the same
             # text (the default itself becomes external_body); payload = spec clauses of the copy
@@ -194,6 +206,16 @@ def inject(s, vc_files):
                 continue
             if top.kind == 'module':
                 deferred.append(top)
+                continue
+            if top.kind == 'line':
+                # a one-line item (const / type alias) wrapped in verus!
+                m = code_mask(s)
+                ms = list(find_code(s, m, top.arg))
+                if len(ms) != 1:
+                    raise Lost('line item %s matched %d times' % (top.arg, len(ms)))
+                a = s.rfind('\n', 0, ms[0].start()) + 1
+                b = s.index(';', ms[0].start()) + 1
+                s = s[:a] + OPEN + s[a:b] + CLOSE + s[b:]
                 continue
             if False:
                 owner = top.owner
